@@ -466,6 +466,55 @@ func MarkupChunks(r *prng.R) []*mchunk {
 	return cs
 }
 
+// mTight draws a short chunk list over a small alphabet in which every neighbourhood matters: escaped brackets, markers
+// and blanks directly next to each other, at the start and at the end of the line (the parser's decisions "preceded by
+// white space or the start of the line" and "swallow one following blank" live here).
+func mTight(r *prng.R) []*mchunk {
+	var cs []*mchunk
+	var open []string
+	for n := 1 + r.Intn(5); n > 0; n-- {
+		switch r.Intn(9) {
+		case 0:
+			cs = append(cs, &mchunk{kind: "text", text: " "})
+		case 1:
+			cs = append(cs, &mchunk{kind: "text", text: r.Pick("x", " x", "x ", " x ", "  ", "é ", "\u3000")})
+		case 2:
+			cs = append(cs, &mchunk{kind: "escOpen"})
+		case 3:
+			cs = append(cs, &mchunk{kind: "escClose"})
+		case 4, 5:
+			cs = append(cs, &mchunk{kind: "selfClose", name: r.Pick("a", "b")})
+		case 6:
+			name := r.Pick("a", "b")
+			open = append(open, name)
+			cs = append(cs, &mchunk{kind: "open", name: name})
+		case 7:
+			if len(open) > 0 {
+				cs = append(cs, &mchunk{kind: "close", name: open[len(open)-1]})
+				open = open[:len(open)-1]
+			} else {
+				cs = append(cs, &mchunk{kind: "text", text: "y"})
+			}
+		default:
+			cs = append(cs, &mchunk{kind: "closeAll"})
+			open = nil
+		}
+	}
+	// two neighbouring text chunks would not re-parse as two chunks
+	var out []*mchunk
+	for _, c := range cs {
+		if c.kind == "text" && len(out) > 0 && out[len(out)-1].kind == "text" {
+			out[len(out)-1] = &mchunk{kind: "text", text: out[len(out)-1].text + c.text}
+			continue
+		}
+		out = append(out, c)
+	}
+	if len(open) > 0 && r.Chance(3, 4) {
+		out = append(out, &mchunk{kind: "closeAll"})
+	}
+	return out
+}
+
 var markupFrags = []string{"[", "]", "[/", "/]", "[/]", "=", "\"", "\\", "\\[", "\\]", " ", "  ", "a", "b", "bold", "x y", "é", "名", "1", "12",
 	"1.05", ".", "true", "False", "[b]", "[/b]", "[a]", "[/a]", "[i/]", "[ b ]", "[ / b ]", "[a=1]", "[a k=v]", "[a k=\"q\\\"w\"]",
 	"[nomarkup]", "[/nomarkup]", "[select value=m m=\"he\" f=\"she\"/]", "[plural value=2 one=\"% apple\" other=\"% apples\"/]",
@@ -523,6 +572,9 @@ func init() {
 		switch profile {
 		case "chunks":
 			cs := MarkupChunks(r)
+			if r.Chance(1, 5) {
+				cs = mTight(r)
+			}
 			l := sexp.L(sexp.A("chunks"))
 			for _, ch := range cs {
 				l.Add(ch.sexp())
@@ -530,6 +582,22 @@ func init() {
 			return c.Add(l, sexp.Bytes([]byte(renderChunks(cs))))
 		case "history":
 			h := sexp.L(sexp.A("hist"))
+			if r.Chance(1, 3) {
+				// short lines in which neighbourhoods matter, after histories that end in every way (blank, escape, marker, failure)
+				for k := r.Intn(4); k > 0; k-- {
+					hl := renderChunks(mTight(r))
+					if r.Chance(1, 2) {
+						hl += r.Pick(" ", " ", "x ", "[", "\\", "[a", " [")
+					}
+					h.Add(sexp.Bytes([]byte(hl)))
+				}
+				last := mTight(r)
+				if r.Chance(1, 2) {
+					// the first chunk is an escaped bracket: text is written before any character was looked at
+					last = append([]*mchunk{{kind: r.Pick("escOpen", "escClose")}}, last...)
+				}
+				return c.Add(h, sexp.Bytes([]byte(renderChunks(last))))
+			}
 			for k := r.Intn(6); k > 0; k-- {
 				if r.Chance(1, 2) {
 					h.Add(sexp.Bytes(fuzzLine(r)))
